@@ -618,6 +618,75 @@ def run(ctx):
 			if ctx.counters.get('fail:corr', 0) > 5:
 				break
 	check_cli(ctx, checker)
+	check_pipeline(ctx, checker)
+
+
+def validator_verdict(text):
+	"""What the two validation stages report for a schema text, driven directly (PRE on the parsed schema, POST on the same list
+	after attribute application and both expansions) - the oracle for the command-line pipeline."""
+	from catparser.AstPostProcessor import AstPostProcessor  # pylint: disable=import-outside-toplevel
+	from catparser.AstValidator import AstValidator  # pylint: disable=import-outside-toplevel
+	models = cats_common.parse_text(text)
+
+	def errors(mode):
+		validator = AstValidator(models)
+		validator.set_validation_mode(mode)
+		validator.validate()
+		return len(validator.errors)
+
+	if errors(AstValidator.Mode.PRE_EXPANSION):
+		return 'pre'
+	processor = AstPostProcessor(models)
+	processor.apply_attributes()
+	processor.expand_named_inlines()
+	processor.expand_unnamed_inlines()
+	return 'post' if errors(AstValidator.Mode.POST_EXPANSION) else 'clean'
+
+
+def check_pipeline(ctx, checker):
+	"""The command line reports what the validator reports: broken struct-level attributes (@size, @discriminator, @comparer,
+	@initializes) are seeded on structs of every disposition - plain, abstract, inline, used and unused - of consistent random
+	schemas, and `catparser.__main__.main()` must exit 2 exactly when a stage driven directly has an error (0 when both are clean)."""
+	import os  # pylint: disable=import-outside-toplevel
+	import re  # pylint: disable=import-outside-toplevel
+
+	from . import c17  # pylint: disable=import-outside-toplevel
+	rng = ctx.rng
+	implementation = c17.Implementation(ctx)
+	directory = os.path.join(ctx.tmpdir(), 'pipeline')
+	os.makedirs(directory, exist_ok=True)
+	attributes = ['@size(no_such_member)', '@discriminator(no_such_member)', '@comparer(no_such_member)', '@initializes(no_such_member, NO_SUCH_CONST)']
+	runs = 0
+	budget = ctx.scale(60, 600)
+	while runs < budget:
+		text = gen_consistent(rng)
+		lines = text.split('\n')
+		declarations = [index for index, line in enumerate(lines) if re.match(r'(abstract |inline )?struct ', line)]
+		variants = [('unchanged', text)]
+		for index in rng.sample(declarations, min(len(declarations), 3)):
+			start = index
+			while start > 0 and lines[start - 1].startswith(('@', '#')):
+				start -= 1
+			disposition = lines[index].split('struct')[0].strip() or 'plain'
+			attribute = rng.choice(attributes)
+			variants.append((f'{attribute.split("(")[0]}:{disposition}', '\n'.join(lines[:start] + [attribute] + lines[start:])))
+		for label, variant in variants:
+			try:
+				verdict = validator_verdict(variant)
+			except Exception:  # pylint: disable=broad-except
+				continue  # crashes of the stages are the business of check_break
+			path = os.path.join(directory, f'schema{runs}.cats')
+			with open(path, 'wt', encoding='utf8') as outfile:
+				outfile.write(variant)
+			status, crash, _ = implementation.main(directory, ['--schema', path, '--include', directory, '--quiet'])
+			runs += 1
+			ctx.case(('pipeline', variant), {'label': f'pipeline:{label}', 'status': status, 'stages': verdict} if runs < 3 else None)
+			ctx.count(f'pipeline:{label}:{verdict}:status-{status}')
+			expected = 0 if 'clean' == verdict else 2
+			if status != expected:
+				checker.fail_property(
+					f'command line exits {status} ({crash}) for a schema whose {verdict} validation stage '
+					f'{"reports errors" if "clean" != verdict else "is clean"} ({label})', {'label': f'pipeline:{label}', 'cats': variant})
 
 
 def check_cli(ctx, checker):
